@@ -662,6 +662,15 @@ func windowBase(ph *ssa.Phi) (base ssa.Value, suffix bool) {
 			}
 			base = v
 			return true
+		case *ssa.UnOp:
+			// a field loaded once before the loop (rest := w.buf)
+			if x.Op == token.MUL && x.Block() != nil && x.Block() != ph.Block() && x.Block().Dominates(ph.Block()) {
+				if base != nil && base != v {
+					return false
+				}
+				base = v
+				return true
+			}
 		}
 		return false
 	}
@@ -747,7 +756,8 @@ func (fa *FA) sliceDesc1(v ssa.Value) *SliceDesc {
 		// a cursor kept as an advancing sub-slice (rest = rest[n:]): every incoming value is a window of one
 		// and the same underlying slice; the phi is then that slice at a running offset
 		if base, suffix := windowBase(v); base != nil {
-			if bd := fa.sliceDesc(base); bd != nil && bd.Root == base && bd.Off.isConst() && bd.Off.C.Sign() == 0 {
+			if bd := fa.sliceDesc(base); bd != nil && bd.Root != nil && bd.Off.isConst() && bd.Off.C.Sign() == 0 {
+				base := bd.Root
 				ph := v
 				offID := A.atom("sliceoff:"+fa.vkey(v), func(a *Atom) {
 					a.Kind = aVal
